@@ -162,7 +162,13 @@ func DecodeTime(s string) (t time.Time, err error) {
 	if err != nil {
 		return
 	}
-	t = t.In(tz.Location())
+	// The offset is kept as written. time.Parse hands back the machine's local
+	// zone when the offset happens to be one that zone uses, and a local zone
+	// with daylight saving time then shows the instant under another offset:
+	// the commit would re-encode to different bytes than the ones it was read
+	// from, depending on where it is read.
+	_, off := tz.Zone()
+	t = t.In(time.FixedZone("", off))
 	return
 }
 
